@@ -116,6 +116,15 @@ class C01(Prop):
                             payload = response_payload(rng, pname, enc_id(rng, key[0]), ['res', 5])
                             ops.append(['receive', list(json.dumps(payload).encode())])
                             expects.append(['reject'])
+                        elif outstanding[key] == 'one' and pname != 'v1' and rng.random() < 0.1:
+                            # an array that answers no batch we sent, holding an ill-formed member under the id of a single
+                            # request: rejected as a whole, the single request is not disturbed
+                            bad = response_payload(rng, pname, enc_id(rng, key[0]), ['res', 1])
+                            bad['error'] = {'code': 1, 'message': 'x'}
+                            other = response_payload(rng, pname, 9999, ['res', 0])
+                            arr = [bad, other] if rng.random() < 0.5 else [other, bad]
+                            ops.append(['receive', list(json.dumps(arr).encode())])
+                            expects.append(['reject'])
                         elif outstanding[key] == 'one':
                             outcome = rng.choice([['res', rng.choice([None, 5, 'ok', [1]])], ['err', 7, 'bad'], ['malformed', rng.randrange(3)]])
                             if pname == 'loose' and rng.random() < 0.3:
@@ -133,7 +142,14 @@ class C01(Prop):
                             order = list(range(len(members)))
                             rng.shuffle(order)
                             send = [members[j] for j in order]
-                            if variant < 0.7:
+                            if variant < 0.12:
+                                # exactly the batch's ids, but one member is ill-formed: rejected, the batch stays outstanding
+                                # (the peer's later well-formed answer still completes it)
+                                bad = dict(send[0])
+                                bad['result'], bad['error'] = 1, {'code': 1, 'message': 'x'}
+                                ops.append(['receive', list(json.dumps([bad] + send[1:]).encode())])
+                                expects.append(['reject'])
+                            elif variant < 0.7:
                                 ops.append(['receive', list(json.dumps(send).encode())])
                                 expects.append(['complete', list(key), outs])
                                 del outstanding[key]
